@@ -108,7 +108,7 @@ class Ctx:
         for c in cases[:: max(1, len(cases) // 3)][:3]:
             self.sample(c)
         if mode == "trace":
-            counts, diffs, xs = runner.run_driver(files, units)
+            counts, diffs, xs, viols = runner.run_driver(files, units)
             for u, (ok, bad) in counts.items():
                 cc = self.corr_counts.setdefault(u, [0, 0])
                 cc[0] += ok
@@ -118,7 +118,13 @@ class Ctx:
             for cid, unit, detail in diffs:
                 c = byid.get(cid)
                 self.corr_diffs.append((cid, unit, detail + ((" input=" + c.input_bytes().hex()[:400] + " cfg=" + repr(c.cfg)) if c else "")))
+            for cid, unit, kind, detail in viols:
+                c = byid.get(cid)
+                k, _, cls = kind.partition(":")
+                self.fail(k, c, "%s: %s" % (unit, detail), token_class=cls)
             for cid, what in xs:
+                if what.startswith("CURSORDEP"):
+                    self.fail("text_depends_on_cursors", byid.get(cid), "formatting with cursors gave a different text")
                 if what.startswith("DRIFT"):
                     self.corr_diffs.append((cid, "replica", "replica pipeline output differs from make_formatter"))
         for r in results.values():
@@ -239,3 +245,305 @@ PROPS = {
                      "the three content-rewriting rules are the only set_content sites (inventory)"],
     ),
 }
+
+
+# ------------------------------------------------------------------ helper: paired runs
+
+def run_pairs(ctx, pairs, compare, mode="fmt"):
+    """pairs: list of (caseA, caseB, meta). Runs all cases, then compare(resA, resB, meta)."""
+    cases = []
+    for a, b, _ in pairs:
+        cases.append(a)
+        cases.append(b)
+    res = ctx.run_stream(cases, mode=mode)
+    for a, b, meta in pairs:
+        ra, rb = res.get(a.id), res.get(b.id)
+        if ra is None or rb is None or ra.out is None or rb.out is None:
+            continue
+        compare(ra, rb, meta)
+
+
+def wellformed_texts(ctx, n_gram):
+    """(text, kind) of inputs that are well-formed by construction: curated seeds and grammar programs"""
+    out = [(s["text"], "seed", s["wrap"]) for s in gen.seeds()]
+    for _ in range(n_gram):
+        out.append((gen.grammar_program(ctx.rng).text(), "grammar", 120))
+    return out
+
+
+# ------------------------------------------------------------------ C07
+
+TOGGLE_FORMS = [("// pasfmt off\n", "// pasfmt on\n"), ("{pasfmt off}", "{pasfmt on}"), ("(* pasfmt off *)", "(* pasfmt on *)"),
+                ("//PASFMT OFF\n", "//  PasFmt   On\n"), ("{ \tPASFMT off now }", "{pasfmt ON}"), ("(*pasfmt Off*)", "//pasfmt on\n"),
+                ("// pasfmt off\r\n", "// pasfmt on\r\n"), ("// pasfmt off\r", "{pasfmt on}"), ("//pasfmt\toff\n", "{\tpasfmt\x0con}")]
+NON_TOGGLES = ["// pasfmt offx\n", "// pasfmtoff\n", "{ pasfmt }", "{pasfmt o}", "(* pas fmt off *)", "/// pasfmt off\n", "// xpasfmt off\n", "{$pasfmt off}", "{pasfmt offf}", "{pasfmt on1}"]
+
+
+def insert_region(text, rng):
+    """returns (new_text, region_bytes) or None"""
+    if gen.has_asm_or_toggle(text) or "'''" in text:
+        # multi-line literals: the approximate tokenizer could place the comment inside a string
+        return None
+    toks = gen.tokenize(text)
+    gaps = [i for i, (k, t) in enumerate(toks) if k == "ws" and 0 < i < len(toks) - 1
+            and not gen.is_comment_kind(toks[i - 1][0]) and toks[i - 1][0] not in ("unk",) and toks[i + 1][0] not in ("unk",)]
+    if not gaps:
+        return None
+    a = rng.choice(gaps)
+    later = [g for g in gaps if g > a]
+    off, on = rng.choice(TOGGLE_FORMS)
+    pre = "".join(t for _, t in toks[:a + 1])
+    if later and rng.random() < 0.8:
+        b = rng.choice(later)
+        mid = "".join(t for _, t in toks[a + 1:b + 1])
+        post = "".join(t for _, t in toks[b + 1:])
+        region = off + mid + on
+        new = pre + region + post
+        # the region ends with the `on` comment's content (without its line terminator)
+        region_core = off + mid + on.rstrip("\r\n")
+    else:
+        mid = "".join(t for _, t in toks[a + 1:])
+        region = off + mid
+        new = pre + region
+        region_core = region
+    return new, region_core.encode("utf-8")
+
+
+ASM_BODIES = ["  mov eax, 1\n   @@loop:  dec   ecx\n  jnz @@loop\n", "mov   A,B\n mov C , D\n  mov   C ,   D\n", "  db $0F,$31 ; rdtsc\n  PUSH  EBX\n"]
+
+
+def run_c07(ctx):
+    rng = ctx.rng
+    wf = wellformed_texts(ctx, ctx.n(200, 4000))
+    cases = []
+    for text, kind, wrap in wf:
+        for _ in range(ctx.n(1, 4)):
+            r = insert_region(text, rng)
+            if r is None:
+                continue
+            new, region = r
+            cases.append(ctx.case("region", new, gen.random_cfg(rng), meta={"region": region}))
+    # asm bodies
+    for _ in range(ctx.n(60, 600)):
+        body = rng.choice(ASM_BODIES)
+        t = "procedure P;\nbegin\n  X  :=  1;\n  asm\n" + body + "  end;\n  Y:=2;\nend;\n"
+        cases.append(ctx.case("asm", t, gen.random_cfg(rng), meta={"region": body.rstrip("\n").encode()}))
+    # negative spellings: must NOT open a region (the code after it is still formatted)
+    for nt in NON_TOGGLES:
+        for _ in range(ctx.n(3, 30)):
+            t = "begin\n" + nt + "  Foo  :=   Bar ;\nend.\n"
+            cases.append(ctx.case("nontoggle", t, gen.random_cfg(rng, wrap=120), meta={"formatted": b"Foo := Bar;"}))
+
+    def oracle(r):
+        m = r.case.meta
+        if "region" in m:
+            ctx.count("region_checked")
+            if m["region"] not in r.out:
+                ctx.fail("region_not_verbatim", r.case, "verbatim region %r not found byte-for-byte in the output" % m["region"][:200], observed=r.out.hex()[:2000])
+        if "formatted" in m:
+            ctx.count("nontoggle_checked")
+            if m["formatted"] not in r.out:
+                ctx.fail("toggle_misrecognised", r.case, "a comment that is not a pasfmt toggle disabled formatting", observed=r.out.hex()[:2000])
+
+    ctx.run_stream(cases, units=["ignore", "recon", "lower", "comment", "eofnl"], oracle=oracle)
+    ctx.hypotheses["no_net inside ignored runs (no safety-net newline inside a region)"] = "region substring oracle on every case; lone-CR terminated comments included in the toggle forms"
+    ctx.hypotheses["which lines are AsmInstruction lines (grammar oracle)"] = "asm stream: instruction lines compared byte for byte"
+
+
+# ------------------------------------------------------------------ C08
+
+def line_split(out: bytes):
+    return out.replace(b"\r\n", b"\n").split(b"\n")
+
+
+def run_c08(ctx):
+    rng = ctx.rng
+
+    def oracle(r):
+        c = r.case
+        out = r.out
+        text = c.text if isinstance(c.text, str) else ""
+        ctx.count("outputs_scanned")
+        if out == b"":
+            return
+        simple = not gen.has_multiline_token(text) and not gen.has_asm_or_toggle(text)
+        if simple:
+            lines = line_split(out)
+            # no blank line at the start (unless the whole output is one terminator), never two blank lines
+            if lines[0] == b"" and out.strip(b"\r\n") != b"":
+                ctx.fail("leading_blank_line", c, "output starts with a blank line", observed=out.hex()[:2000])
+            for i in range(len(lines) - 2):
+                if lines[i] == b"" and lines[i + 1] == b"" and i + 2 < len(lines) - 0 and any(l != b"" for l in lines[i + 2:]):
+                    ctx.fail("two_blank_lines", c, "two consecutive blank lines at output line %d" % i, observed=out.hex()[:2000])
+                    break
+            # indentation: whole number of units
+            tabs, tw, ci = c.cfg[3], c.cfg[4], c.cfg[5]
+            for ln in lines:
+                lead = ln[:len(ln) - len(ln.lstrip(b" \t"))]
+                if not lead:
+                    continue
+                if tabs:
+                    ok = lead.strip(b"\t") == b""
+                else:
+                    ok = lead.strip(b" ") == b"" and (tw == 0 or len(lead) % tw == 0)
+                if not ok and not c.meta.get("invalid"):
+                    ctx.fail("indent_not_unit_multiple", c, "line indentation %r is not a whole number of units" % lead, observed=out.hex()[:2000])
+                    break
+        if c.meta.get("wellformed"):
+            ctx.count("eof_clause_checked")
+            nl = b"\r\n" if c.cfg[6] else b"\n"
+            if not out.endswith(nl) or out.endswith(nl + nl):
+                ctx.fail("no_final_newline", c, "output of well-formed input does not end with exactly one line terminator: ...%r" % out[-20:], observed=out.hex()[-400:])
+
+    cases = []
+    for text, kind, wrap in wellformed_texts(ctx, ctx.n(150, 3000)):
+        cfg = gen.random_cfg(rng)
+        if cfg[3] == 0 and cfg[4] * cfg[5] > 255:
+            cfg = cfg[:5] + (2,) + cfg[6:]
+        cases.append(ctx.case(kind, text, cfg, meta={"wellformed": True}))
+        t2 = gen.relayout(text, rng)
+        if t2 is not None and rng.random() < 0.5:
+            cases.append(ctx.case("relayout", t2, cfg, meta={"wellformed": True}))
+    texts = [s["text"] for s in gen.seeds()]
+    for _ in range(ctx.n(400, 8000)):
+        cases.append(ctx.case("mut", gen.mutate(rng.choice(texts), rng, texts), gen.random_cfg(rng), meta={"invalid": True}))
+    for _ in range(ctx.n(300, 6000)):
+        cases.append(ctx.case("soup", gen.soup(rng, 1, 12), gen.random_cfg(rng), meta={"invalid": True}))
+    ctx.run_stream(cases, units=["canon", "lineend", "recon", "eofnl", "settings"], oracle=oracle)
+    ctx.hypotheses["H-W1 canon_fmt (final per-token data: line start => no spaces; continuation => <= 1 space, no indentation; <= 1 blank line)"] = "unit canon on every trace"
+    ctx.hypotheses["no content ends in a blank before a line break"] = "unit lineend on every trace (classes F3/F7 matched against known findings)"
+
+
+# ------------------------------------------------------------------ C09
+
+def run_c09(ctx):
+    rng = ctx.rng
+    pairs = []
+    pool = wellformed_texts(ctx, ctx.n(150, 3000))
+    texts = [s["text"] for s in gen.seeds()]
+    extra = [(gen.mutate(rng.choice(texts), rng, texts), "mut", 120) for _ in range(ctx.n(300, 5000))]
+    for text, kind, wrap in pool + extra:
+        cfg = gen.random_cfg(rng)
+        lf = cfg[:6] + (0,)
+        crlf = cfg[:6] + (1,)
+        if "\r" in text:
+            continue
+        verbatim_multiline = gen.has_multiline_token(text) or gen.has_asm_or_toggle(text)
+        pairs.append((ctx.case(kind + "-lf", text, lf), ctx.case(kind + "-crlf", text, crlf), {"what": "config", "vm": verbatim_multiline}))
+        if not verbatim_multiline:
+            pairs.append((ctx.case(kind + "-inlf", text, lf), ctx.case(kind + "-incrlf", gen.to_crlf(text), lf), {"what": "input"}))
+
+    def compare(ra, rb, meta):
+        if meta["what"] == "config":
+            ctx.count("lf_vs_crlf_config")
+            if meta["vm"]:
+                # verbatim multi-line tokens keep their own terminators: compare modulo CR
+                if ra.out.replace(b"\r", b"") != rb.out.replace(b"\r", b""):
+                    ctx.fail("crlf_not_subst", rb.case, "crlf result differs from lf result beyond line terminators")
+                return
+            if b"\r" in ra.out:
+                ctx.fail("cr_in_lf_output", ra.case, "line_ending=lf output contains CR", observed=ra.out.hex()[:2000])
+            if ra.out.replace(b"\n", b"\r\n") != rb.out:
+                ctx.fail("crlf_not_subst", rb.case, "crlf result is not the lf result with each terminator substituted", observed=rb.out.hex()[:2000], expected=ra.out.replace(b"\n", b"\r\n").hex()[:2000])
+        else:
+            ctx.count("lf_vs_crlf_input")
+            if ra.out != rb.out:
+                ctx.fail("input_endings_matter", rb.case, "CRLF input formats differently from the same input with LF", observed=rb.out.hex()[:2000], expected=ra.out.hex()[:2000])
+
+    run_pairs(ctx, pairs, compare)
+    # correspondence of reconstruct under both settings, on a traced sample
+    sample = [ctx.case("trace", t, gen.random_cfg(rng)) for t, _, _ in pool[:: max(1, len(pool) // ctx.n(300, 3000))]]
+    ctx.run_stream(sample, units=["recon", "settings"])
+    ctx.hypotheses["H-W2 (the wrapper's plan does not depend on the newline string)"] = "lf/crlf configuration pairs on the real formatter"
+
+
+# ------------------------------------------------------------------ C10
+
+def run_c10(ctx):
+    rng = ctx.rng
+    pairs = []
+    pool = wellformed_texts(ctx, ctx.n(150, 3000))
+    for text, kind, wrap in pool:
+        if gen.has_multiline_token(text) and "\t" in text:
+            continue
+        if gen.has_asm_or_toggle(text) and "\t" in text:
+            continue
+        tw = rng.choice([0, 1, 2, 3, 4, 5, 8, 16, 63, 127, 255])
+        ci = rng.choice([0, 1, 2, 3, 4])
+        if tw * ci > 255:
+            ci = 255 // tw if tw else ci
+        base = (1000000000, rng.randrange(2), 1, 0, tw, ci, rng.randrange(2))
+        a = ctx.case(kind + "-tabs", text, base[:3] + (1,) + base[4:])
+        b = ctx.case(kind + "-spaces", text, base)
+        pairs.append((a, b, {"tw": tw}))
+
+    def expand(out, tw):
+        res = []
+        for ln in out.split(b"\n"):
+            k = len(ln) - len(ln.lstrip(b"\t"))
+            res.append(b" " * (k * tw) + ln[k:])
+        return b"\n".join(res)
+
+    def compare(ra, rb, meta):
+        ctx.count("tabs_vs_spaces_pairs")
+        if expand(ra.out, meta["tw"]) != rb.out:
+            ctx.fail("tabs_vs_spaces", rb.case, "use_tabs result with leading tabs expanded to tab_width spaces differs from the use_tabs=false result",
+                     observed=rb.out.hex()[:1500], expected=expand(ra.out, meta["tw"]).hex()[:1500])
+
+    run_pairs(ctx, pairs, compare)
+    # the settings conversion on a grid, through the model (exhaustive in the thorough tier)
+    import subprocess
+    p = subprocess.run([build.VH, "unit", "settings", ctx.tier], stdout=subprocess.PIPE, env=build.ENV, timeout=600)
+    grid = os.path.join(build.CACHE, "run", "grid_%d.txt" % os.getpid())
+    os.makedirs(os.path.dirname(grid), exist_ok=True)
+    with open(grid, "wb") as f:
+        f.write(p.stdout)
+    q = subprocess.run([build.DRIVER, "settings-grid", grid], stdout=subprocess.PIPE, timeout=1200)
+    os.remove(grid)
+    n_ok = n_bad = 0
+    for line in q.stdout.decode().splitlines():
+        if line.startswith("GRID OK"):
+            n_ok = int(line.split()[2])
+        elif line.startswith("GRID DIFF"):
+            n_bad += 1
+            ctx.corr_diffs.append(("grid", "settings", line))
+    ctx.corr_counts["settings_grid"] = [n_ok, n_bad]
+    ctx.traces_validated += n_ok
+    ctx.evaluations += n_ok + n_bad
+    sample = [ctx.case("trace", t, gen.random_cfg(rng)) for t, _, _ in pool[:: max(1, len(pool) // ctx.n(300, 3000))]]
+    ctx.run_stream(sample, units=["recon", "settings"])
+    ctx.hypotheses["H-W3 (with the width unconstrained the plan does not depend on indentation widths)"] = "tabs/spaces pairs on the real formatter with wrap_column = 10^9"
+
+
+PROPS["C07"] = Spec(
+    coq_targets=["theories/Properties/C07.v"], module="Properties.C07",
+    theorems=["C07_ignored_run_verbatim", "C07_region", "C07_split", "C07_ignored_untouched_by_stages"],
+    run=run_c07,
+    rule="well-formed seeds and grammar programs with a pasfmt off/on region inserted at random token gaps (8 spellings incl. CR/CRLF terminated), asm blocks with irregular spacing, 9 near-miss spellings that must not toggle; x random configurations; distinct = distinct (input, cfg)",
+    explanation="Theorems: a run of ignored tokens is emitted verbatim for all counters/settings unless the safety net fires inside it; no formatting stage touches an ignored token. The toggle/asm marking model is diffed against the implementation's ignore marks on every case; the oracle checks the region's bytes in the real output.",
+    assumptions=["which logical lines are AsmInstruction lines is decided by the parser grammar (oracle)"],
+)
+PROPS["C08"] = Spec(
+    coq_targets=["theories/Properties/C08.v"], module="Properties.C08",
+    theorems=["C08_line_start", "C08_continue", "C08_indentation_units", "C08_stage_order", "C08_units_refuted_when_saturated"],
+    run=run_c08,
+    rule="well-formed seeds and grammar programs (also relayouted) with ci*tw <= 255, plus mutated seeds and token soup, x random configurations; final per-token data checked by extracted predicates, output scanned line by line",
+    explanation="Theorems give the exact whitespace emitted for a decided token (line start: breaks + whole units; continuation: spaces only) for all settings; the acceptance predicate canon_fmt and the line-end check are evaluated by extracted Coq code on every real final state; a text-level scan of the real output checks blank lines, indentation units and the end-of-file clause.",
+    assumptions=["H-W1: the wrapper's plan satisfies canon_fmt (monitored on every trace)", "tokens of lines without a wrapping solution keep their original newline count (excluded class)"],
+)
+PROPS["C09"] = Spec(
+    coq_targets=["theories/Properties/C09.v"], module="Properties.C09",
+    theorems=["C09_output_is_rendering", "C09_pieces_independent_of_newline", "C09_crlf_is_subst"],
+    run=run_c09,
+    rule="well-formed seeds, grammar programs and mutated seeds: (lf, crlf) configuration pairs and (LF, CRLF) input pairs, other settings random",
+    explanation="Theorems: reconstruct's output is a rendering of newline-independent pieces, so for the same formatted tokens the crlf output is the lf output with each emitted terminator substituted. The oracle compares real outputs under both settings and for LF/CRLF inputs.",
+    assumptions=["H-W2: the wrapper's plan is independent of the newline string (differential on the real formatter)", "multi-line string interiors: Proofs/MLStringProofs (rewritten terminators are rs_newline)"],
+)
+PROPS["C10"] = Spec(
+    coq_targets=["theories/Properties/C10.v"], module="Properties.C10",
+    theorems=["C10_tabs_vs_spaces", "C10_indentation_units", "C10_expand_tabs_identity_without_tabs", "C10_refuted_when_saturated"],
+    run=run_c10,
+    rule="well-formed seeds and grammar programs x (use_tabs, tab_width in {0..255 sample}, continuation_indents) pairs with wrap_column=10^9; settings conversion on a 2x19x19 grid (quick) / 2x256x256 (thorough)",
+    explanation="Theorems: expanding tabs of the hard-tab indentation gives the soft-tab indentation when ci*tw <= 255; indentation = (levels + ci*continuations) units; refuted beyond saturation (F13). The conversion From<&FormattingConfig> is diffed against the model on a grid; the oracle compares real outputs pairwise.",
+    assumptions=["H-W3: with unconstrained width the plan does not depend on indentation widths (differential)"],
+)
